@@ -16,7 +16,8 @@ package c17
 type model struct {
 	cap     int // <= 0: no capacity
 	keys    []string
-	val     map[string]VD // as offered (limits are applied when comparing)
+	pos     map[string]int // key -> index in keys
+	val     map[string]VD  // as offered (limits are applied when comparing)
 	offered int
 	// nestedDups is the number of duplicate nested map entries among the
 	// values offered since the last SetAttributes (0 in the counting class).
@@ -33,14 +34,17 @@ type opFacts struct {
 }
 
 func newModel(capacity int) *model {
-	return &model{cap: capacity, val: map[string]VD{}}
+	return &model{cap: capacity, val: map[string]VD{}, pos: map[string]int{}}
 }
 
 func (m *model) clone() *model {
 	c := &model{cap: m.cap, keys: append([]string{}, m.keys...), val: make(map[string]VD, len(m.val)),
-		offered: m.offered, nestedDups: m.nestedDups}
+		pos: make(map[string]int, len(m.pos)), offered: m.offered, nestedDups: m.nestedDups}
 	for k, v := range m.val {
 		c.val[k] = v
+	}
+	for k, v := range m.pos {
+		c.pos[k] = v
 	}
 	return c
 }
@@ -48,6 +52,7 @@ func (m *model) clone() *model {
 func (m *model) set(kvs []KVD, f *opFacts) {
 	m.keys = nil
 	m.val = map[string]VD{}
+	m.pos = map[string]int{}
 	m.offered = 0
 	m.nestedDups = 0
 	m.add(kvs, f)
@@ -66,7 +71,7 @@ func (m *model) add(kvs []KVD, f *opFacts) {
 		inCall[k] = true
 		if _, ok := m.val[k]; ok {
 			m.val[k] = kv.V
-			pos := indexOf(m.keys, k)
+			pos := m.pos[k]
 			if pos < heldBefore {
 				if pos < 5 {
 					f.overwriteInline = true
@@ -86,16 +91,8 @@ func (m *model) add(kvs []KVD, f *opFacts) {
 			}
 			continue
 		}
+		m.pos[k] = len(m.keys)
 		m.keys = append(m.keys, k)
 		m.val[k] = kv.V
 	}
-}
-
-func indexOf(ks []string, k string) int {
-	for i, x := range ks {
-		if x == k {
-			return i
-		}
-	}
-	return -1
 }
